@@ -19,16 +19,10 @@ type MemoryHeightIterator struct {
 }
 
 func NewMemoryHeightIterator(dataset map[string]string, start string, end string, sortedKeys []string, ascending bool) *MemoryHeightIterator {
-	if start != "" || end != "" {
-		if start != "" && end != "" && start > end { // start has to be smaller than end!
-			return &MemoryHeightIterator{endIdx: -1, startIdx: 1}
-		}
+	if start != "" && end != "" && start > end { // start has to be smaller than end!
+		return &MemoryHeightIterator{endIdx: -1, startIdx: 1}
 	}
-	if start > end {
-		tmp := start
-		start = end
-		end = tmp
-	}
+
 	if len(sortedKeys) == 0 {
 		sortedKeys = make([]string, 0, len(dataset))
 		for k, _ := range dataset {
@@ -36,22 +30,17 @@ func NewMemoryHeightIterator(dataset map[string]string, start string, end string
 		}
 		sort.Strings(sortedKeys)
 	}
-	startIdx := 0
-	if start != "" { // this is a risky assumption -- what's the diff between string([]bytes{}) and (string[]bytes(nil)) ? those are considered smallest and largest by iavl.
-		for ; startIdx < len(sortedKeys)-1; startIdx++ {
-			if sortedKeys[startIdx] >= start {
-				break
-			}
-		}
+	// The iterated range is the half-open interval [start, end) in both directions, as in the
+	// IAVL tree; "" is an open bound.
+	startIdx := 0 // first index whose key is >= start
+	if start != "" {
+		startIdx = sort.SearchStrings(sortedKeys, start)
 	}
-	endIdx := len(sortedKeys) - 1
+	endIdx := len(sortedKeys) - 1 // last index whose key is < end
 	if end != "" {
-		for ; endIdx > 0 && endIdx > startIdx; endIdx-- {
-			if sortedKeys[endIdx] <= end {
-				break
-			}
-		}
+		endIdx = sort.SearchStrings(sortedKeys, end) - 1
 	}
+
 	curIdx := startIdx
 	if !ascending {
 		curIdx = endIdx
@@ -78,20 +67,10 @@ func (m *MemoryHeightIterator) Domain() (start []byte, end []byte) {
 }
 
 func (m *MemoryHeightIterator) Valid() bool {
-	if m.endIdx < m.startIdx || m.curIdx > m.endIdx {
-		return false
-	}
-	if (m.end != "" && m.sortedKeys[m.curIdx] >= m.end) || (m.start != "" && m.sortedKeys[m.curIdx] < m.start) {
-		return false
-	}
 	if m.sortedKeys == nil || m.dataset == nil {
 		return false // we closed!!
 	}
-	if m.curIdx < 0 || m.curIdx > len(m.sortedKeys)-1 {
-		return false // out of range!
-	}
-	return true
-
+	return m.startIdx <= m.curIdx && m.curIdx <= m.endIdx
 }
 
 func (m *MemoryHeightIterator) Next() {
